@@ -868,7 +868,17 @@ func unop(i *interpreter, instr *ssa.UnOp, x value) value {
 	}
 	switch instr.Op {
 	case token.ARROW: // receive
-		v, ok := <-x.(chan value)
+		var v value
+		var ok bool
+		if i.cfg.GoDeferred {
+			select {
+			case v, ok = <-x.(chan value):
+			default:
+				panic(unsupported("blocking channel receive"))
+			}
+		} else {
+			v, ok = <-x.(chan value)
+		}
 		if !ok {
 			v = zero(instr.X.Type().Underlying().(*types.Chan).Elem())
 		}
